@@ -140,6 +140,37 @@ def check_limit_adapter(res, facts, trait, head, tname, inner_rem, chunk_m, adv_
                     and isinstance(g[2][1], tuple) and g[2][1][0] == "agg" and "RangeTo" in str(g[2][1][1]) and "Inclusive" not in str(g[2][1][1]) \
                     and lim(g[2][1][2][0]):
                 return []
+        # `if self.limit < bytes.len() { &bytes[..self.limit] } else { bytes }`: decided per path - the prefix of length limit where limit <= len,
+        # the whole chunk where len <= limit
+        from .flow import enumerate_paths, PathExprBuilder, path_relations
+        from .logic import Ctx
+        isch = ucall_on(chunk_m, "inner")
+        n_ok = 0
+        for path in enumerate_paths(b, limit=200):
+            pe = PathExprBuilder(b, facts, path, inline=False)
+            v = strip_refs(canon(pe.local(0, (path[-1], len(b.blocks[path[-1]]["stmts"])))))
+            rels = path_relations(b, facts, path)
+            ctx = Ctx(b, path[0], facts, extra=rels)
+            if isch(v):
+                ln = ("call", "core::slice::<impl [T]>::len", (v,))
+                if any(r[0] in ("le", "lt") and lim(canon(r[2])) and len_of(isch)(canon(r[1])) for r in rels if r and len(r) > 2 and isinstance(r[1], tuple) and isinstance(r[2], tuple)) \
+                        or any(r[0] == "le" and len_of(isch)(canon(r[1])) and lim(canon(r[2])) for r in rels if r and len(r) > 2 and isinstance(r[1], tuple) and isinstance(r[2], tuple)):
+                    n_ok += 1
+                    continue
+                return ["returns the whole inner chunk on a path where chunk.len() <= self.limit is not known: %s" % fmt_expr(e)]
+            if isinstance(v, tuple) and v[0] == "call" and v[1].rsplit("::", 1)[-1] in ("index", "index_mut") and len(v[2]) == 2 and isch(strip_refs(v[2][0])):
+                rng = v[2][1]
+                if isinstance(rng, tuple) and rng[0] == "agg" and "RangeTo" in str(rng[1]) and "Inclusive" not in str(rng[1]):
+                    end = canon(rng[2][0])
+                    if is_min_of(end, len_of(isch), lim):
+                        n_ok += 1
+                        continue
+                    if lim(end) and any(r[0] in ("lt", "le") and lim(canon(r[1])) and len_of(isch)(canon(r[2])) for r in rels if r and len(r) > 2 and isinstance(r[1], tuple) and isinstance(r[2], tuple)):
+                        n_ok += 1
+                        continue
+            return ["chunk is not the inner chunk truncated to min(chunk.len(), self.limit): %s" % fmt_expr(e)]
+        if n_ok:
+            return []
         return ["chunk is not the inner chunk truncated to min(chunk.len(), self.limit): %s" % fmt_expr(e)]
     decide("%s::%s" % (tname, chunk_m), method_body(facts, trait, head, chunk_m), chunk_probs, "inner.%s()[..min(len, limit)]" % chunk_m)
 
